@@ -277,12 +277,15 @@ class AsyncIOClient(ABC):
         await self._update_state(State.CLOSED)
         if self.writer:
             self.writer.close()
+        # close() may be called from a callback, i.e. from inside one of the background tasks: that task
+        # ends by itself once the state is CLOSED and must not be cancelled from within
+        current_task = asyncio.current_task()
         # Cancel the receive loop task if it exists
-        if self._receive_task and not self._receive_task.done():
+        if self._receive_task and not self._receive_task.done() and self._receive_task is not current_task:
             self._receive_task.cancel()
             await asyncio.sleep(0.01)  # Allow cancellation to propagate
         # Cancel the process queue task if it exists
-        if self._process_queue_task and not self._process_queue_task.done():
+        if self._process_queue_task and not self._process_queue_task.done() and self._process_queue_task is not current_task:
             self._process_queue_task.cancel()
             await asyncio.sleep(0.01)  # Allow cancellation to propagate
         self.logger.info("Connection closed.")
